@@ -76,7 +76,9 @@ def class_source(cs):
     left = {"eq": "    def __eq__(self, other):\n        return NotImplemented\n",
             "ne": "    def __ne__(self, other):\n        return not self.__eq__(other)\n",
             "repr": "    def __repr__(self):\n        return '<' + type(self).__name__ + '>'\n",
-            "hashnone": "    __hash__ = None\n"}
+            "hashnone": "    __hash__ = None\n",
+            # a hand-written __match_args__ that leaves fields out (dataclass() keeps it)
+            "matchargs": (f"    __match_args__ = ({fields[0]!r},)\n" if fields else "")}
     leftover = "".join(left[x] for x in cs.get("leftover") or [])
     if kind == "dc":
         body = "".join(decl(f, j) for j, f in enumerate(fields)) + leftover or "    pass\n"
@@ -216,7 +218,9 @@ def gen_user_classes(r, optimized=False):
                 base, basef = r.choice(decorated)
             elif r.random() < 0.3:
                 base, basef = r.choice([("Variable", ["name"]), ("Sum", ["children"]),
-                                        ("Power", ["base", "exponent"])])
+                                        ("Power", ["base", "exponent"]),
+                                        ("CallWithKwargs", ["function", "parameters",
+                                                            "kw_parameters"])])
             else:
                 base, basef = None, []
             nf = r.randint(0 if base else 1, 2)
@@ -232,7 +236,8 @@ def gen_user_classes(r, optimized=False):
                 cs["fopts"] = [r.choice([None, "compare=False", "hash=False", "repr=False",
                                          "compare=False, hash=False"]) for _ in fields]
             if kind == "dc" and r.random() < 0.25:
-                cs["leftover"] = r.sample(["eq", "ne", "repr", "hashnone"], r.randint(1, 2))
+                cs["leftover"] = r.sample(["eq", "ne", "repr", "hashnone", "matchargs"],
+                                          r.randint(1, 2))
             if kind == "dc_nohash":
                 # (no hash of its own only under a dataclass node: what a class directly under
                 # Expression would inherit is the legacy hash, which stores its cache by plain
@@ -495,7 +500,8 @@ def generate(seed, tier):
     classes = list(spec.ALL_BUILTIN) + list(GA_FIELDS)
     extra_fields = dict(GA_FIELDS)
     base_kinds = {"Variable": ["s"], "Sum": ["E"], "Power": ["e", "e"],
-                  "CommonSubexpression": ["e", "px", "sc"]}
+                  "CommonSubexpression": ["e", "px", "sc"],
+                  "CallWithKwargs": ["e", "E0", "kw"]}
     kinds_of = {}
     for cs in ucs:
         b = cs.get("base")
@@ -626,7 +632,8 @@ def generate(seed, tier):
         if k == "pickle":
             return ["pickle", r.choice(names), r.randint(0, 5)]
         if k == "map":
-            return ["map", r.choice(["identity", "dependency", "str", "repr", "evaluate",
+            return ["map", r.choice(["get_hash", "is_equal", "identity", "dependency", "str",
+                                     "repr", "evaluate",
                                      "substitute", "flatten", "force", "wrap_in_cse",
                                      "make_cse", "operators", "inplace_operators", "flattened",
                                      "tag_cse",
@@ -1114,7 +1121,11 @@ def execute(scenario, open_sigs):
         from pymbolic.mapper import IdentityMapper
         res = None
         try:
-            if kind == "identity":
+            if kind == "get_hash":
+                o.get_hash()            # the legacy hash backend is public API
+            elif kind == "is_equal":
+                o.is_equal(o)
+            elif kind == "identity":
                 res = IdentityMapper()(o)
             elif kind == "force":
                 class Force(IdentityMapper):
